@@ -29,10 +29,13 @@ var stringPool = []string{
 	"", " ", "a", "b", "ab", "abc", "a b", "\x00", "a\x00b", "é", "日本語", "😀", "a😀b", "<>&", "<script>&amp;", "\"", "\\", "\"\\\"", "\n\t\r",
 	"<nil>", "null", "nil", "true", "0", "-1", "a&b=c", "a/b?c#d", "%41", "50%", "a+b", "  ", "\u007f", "\u0080", "�", "ÿ", "A", "B", "a,b", "[x]", "{}",
 	strings.Repeat("k", 1024), "ab́", "\U0010ffff",
+	// texts that LOOK like JSON escapes (a literal backslash followed by u0026 etc.): any textual post-processing of
+	// encoded output instead of encoding the value breaks on them
+	"\\u0026", "\\u003c", "a\\u003eb", "\\\\u0026", "\\n", "\\\"", "\\u2028", "&amp;\\u0026<", "%5Cu003c",
 }
 
 var idPool = []string{"1", "2", "3", "10", "a", "b", "ab", "id-1", "id_2", "A", "é", "日本", "a b", "a/b", "a?b", "a#b", "a%b", "a&b", "a+b", "\"q\"", "<i>", "x\\y", "\x00", "😀", "0", "-", ".", "~", "a,b", "[1]",
-	"01", "007", "1a", "+7", "1e3", "0x1", "2 ", " 2", "-0", "9", "10a", "..", "a//b", "./k"}
+	"01", "007", "1a", "+7", "1e3", "0x1", "2 ", " 2", "-0", "9", "10a", "..", "a//b", "./k", "\\u0026", "\\u003c1", "s1", "s", "b1", "_1", "1_"}
 
 var safeIDPool = []string{"1", "2", "3", "10", "a", "b", "ab", "id-1", "id_2", "A", "x9", "0", "zz", "k.1", "~t"}
 
@@ -268,6 +271,9 @@ func genSchema(r *RNG, o genOpts) *SchemaSpec {
 		for i := 0; i < nr; i++ {
 			t.Rels = append(t.Rels, RelSpec{Name: fnames[na+i], ToOne: r.Bool(), ToType: names[r.Intn(len(names))]})
 		}
+		if !o.Coherent && !t.Wrapped && r.Chance(1, 5) {
+			t.NoFromType = true // relationships declared without naming their owner (a one-way relationship needs none)
+		}
 		s.Types = append(s.Types, t)
 	}
 	if o.Coherent {
@@ -313,6 +319,14 @@ func genAllKindsType(name string, wrapped bool) TypeSpec {
 func genToMany(r *RNG, maxN int) []string {
 	n := r.Intn(maxN + 1)
 	ids := []string{}
+	if r.Chance(1, 40) {
+		// long lists: around small powers of two and well beyond any plausible fixed-size buffer
+		n = []int{15, 16, 17, 18, 31, 33, 64, 65, 300}[r.Intn(9)]
+		for i := 0; i < n; i++ {
+			ids = append(ids, fmt.Sprintf("%s%d", []string{"", "k", "0"}[i%3], i))
+		}
+		return dedup(ids)
+	}
 	for i := 0; i < n; i++ {
 		ids = append(ids, genID(r))
 	}
@@ -340,6 +354,19 @@ func genResource(r *RNG, t *TypeSpec, id string) *ResSpec {
 			}
 		} else {
 			rs.ToMany[rel.Name] = genToMany(r, 5)
+		}
+	}
+	// relationship names where one is a prefix of another ("a"/"ab", "author"/"authors"): give the shorter one an ID
+	// that starts with the rest of the longer name, and the longer one the remainder, so that any key built by plain
+	// concatenation of name and ID is ambiguous
+	for _, p := range t.Rels {
+		for _, q := range t.Rels {
+			if p.ToOne || q.ToOne || len(q.Name) <= len(p.Name) || !strings.HasPrefix(q.Name, p.Name) || !r.Chance(1, 2) {
+				continue
+			}
+			x := safeIDPool[r.Intn(len(safeIDPool))]
+			rs.ToMany[p.Name] = dedup(append(rs.ToMany[p.Name], q.Name[len(p.Name):]+x))
+			rs.ToMany[q.Name] = dedup(append(rs.ToMany[q.Name], x))
 		}
 	}
 	return rs
